@@ -76,7 +76,7 @@ fn family_of(e: Enc) -> Family {
         Enc::AuxAdm => Family::Adm,
         Enc::AuxCo | Enc::ExpCo | Enc::Hybrid | Enc::HelperCo => Family::Co,
         Enc::Stable => Family::St,
-        Enc::None | Enc::Default => unreachable!(),
+        Enc::None | Enc::Default | Enc::New => unreachable!(),
     }
 }
 
